@@ -257,6 +257,20 @@ func c03(r *Report) propMeta {
 	r.Exists("r-compared-with-pub-nonce", vr, RetValEff(0, "field:AssignedMember.PubNonce", "param:r"), 1)
 	r.Gate("r-of-that-member", vr, RetValEff(0, "field:AssignedMember.PubNonce"), []Cond{{Op: "EQL", A: []string{"field:AssignedMember.MemberID"}, B: []string{"param:mid"}, Want: true, Desc: "am.MemberID == mid"}}, GateOpts{})
 
+	r.FailureCensus("share-rejections", ss, map[string]reject{
+		"unknown-signing": {[]string{"^~call:Keeper.GetSigning"}, nil},
+		"not-waiting":     {[]string{"global:types.ErrSigningAlreadySuccess"}, []Cond{{Op: "EQL", A: []string{"field:Signing.Status"}, B: []string{w.ConstAtom(tt, "SIGNING_STATUS_WAITING")}, Want: false}}},
+		"unknown-attempt": {[]string{"^~call:Keeper.GetSigningAttempt"}, nil},
+		"not-assigned": {[]string{"global:types.ErrMemberNotAssigned"}, []Cond{
+			{Op: "BOOL", A: []string{"^extract", "call:AssignedMembers.FindAssignedMember"}, Want: false},
+			{Op: "EQL", A: []string{"field:AssignedMember.Address"}, B: []string{"field:MsgSubmitSignature.Signer"}, Want: false}}},
+		"already-signed": {[]string{"global:types.ErrAlreadySigned"}, []Cond{{Op: "BOOL", A: []string{"^call:Keeper.HasPartialSignature"}, Want: true}}},
+		"verify-failed": {[]string{"global:types.ErrSubmitSigningSignatureFailed"}, []Cond{
+			{Op: "BOOL", A: []string{"^call:AssignedMembers.VerifySignatureR"}, Want: false},
+			{Op: "EQL", A: []string{"^~call:tss.ComputeLagrangeCoefficient"}, B: []string{"const:nil"}, Want: false},
+			{Op: "EQL", A: []string{"^~call:tss.VerifySigningSignature"}, B: []string{"const:nil"}, Want: false}}},
+	})
+
 	r.Rule("C03.R4", "E3+E12 aggregate is stored only if it verifies")
 	agg := tK + "AggregatePartialSignatures"
 	for _, e := range []Effect{StoreEff("Signing.Signature"), StoreEff("Signing.Status"), CallEff("Keeper.SetSigning")} {
